@@ -48,7 +48,7 @@ class Result:
         else:
             s, where = qual_of(site), loc(site)
         if isinstance(construct, ast.AST):
-            if where == s and hasattr(construct, "lineno"):
+            if hasattr(construct, "lineno") and getattr(construct, "_mod", None) is not None:
                 where = loc(construct)
             ctext = text(construct)
         else:
